@@ -111,6 +111,12 @@ func (r *cresp) render(rng *rand.Rand, key string, reqProtos []string, reqExts [
 			lines = append(lines, name+": "+okv)
 		case "varied":
 			lines = append(lines, caseVar(name, 1+rng.Intn(3))+":"+pad(variedv, rng.Intn(20)))
+		case "unifold": // equal to the token under Unicode case folding only (Kelvin sign, long s)
+			v := strings.NewReplacer("k", "\u212a").Replace(okv)
+			if rng.Intn(2) == 0 {
+				v = strings.Replace(okv, "s", "\u017f", 1)
+			}
+			lines = append(lines, name+": "+v)
 		case "dup":
 			lines = append(lines, name+": "+okv, name+": "+okv)
 		default:
@@ -372,7 +378,7 @@ func c10(c *ctx) {
 		}
 	}
 	k := 0
-	for _, up := range []string{"absent", "ok", "varied", "dup", "wrong"} {
+	for _, up := range []string{"absent", "ok", "varied", "dup", "wrong", "unifold"} {
 		for _, co := range []string{"absent", "ok", "varied", "dup", "wrong"} {
 			for _, ac := range []string{"absent", "ok", "varied", "dup", "otherkey", "short", "lowbits", "casefold", "padded"} {
 				for _, pr := range []string{"none", "requested", "foreign", "reqforeign", "foreignlist"} {
